@@ -595,8 +595,18 @@ func (d *Driver) OpFaulted() {
 		m.Put(keys[i], vals[i])
 	}
 	if m.Len() != len(keys) || d.T.Size() != uint64(len(keys)) {
-		d.Failed = true // duplicate keys / size off after the failed call: C12's subject
+		// duplicate keys / size off after the failed call: that is C12's subject, and the
+		// model cannot follow this tree any further. But whatever such a tree persists is
+		// still a persisted version: hand it to the monitors of persisted versions once.
 		d.C.Obs("aborted_tree_inconsistent_after_fault", 1)
+		d.M = m
+		func() {
+			defer func() { recover() }()
+			if root, err := d.T.MakeRoot(d.E.Ctx); err == nil && d.OnRoot != nil && d.ID == "C09" {
+				d.OnRoot(d, root)
+			}
+		}()
+		d.Failed = true
 		return
 	}
 	d.M = m
